@@ -1,6 +1,6 @@
 INIT TInit
 NEXT TNext
 CONSTANTS SqnMod = 256 OvfMod = 65536 Ctx <- TCtx Msgs <- Nothing Starts <- Nothing NetCap = 0 MaxSent = 0 EnvBudget = 0
-          Env <- Nothing Skips <- Nothing MaxLead = 0 AllowWrap = TRUE Bits <- TBits ReflectCounts <- Nothing RefuseWrap = FALSE ConcreteEvery = 4
+          Env <- Nothing Skips <- Nothing MaxLead = 0 AllowWrap = TRUE Bits <- TBits ReflectCounts <- Nothing RefuseWrap = FALSE ConcreteEvery = 2
 CHECK_DEADLOCK FALSE
 POSTCONDITION Consumed
